@@ -165,3 +165,9 @@ func init() {
 		Rule: "one case = 2..4 client sessions of 2..6 calls (vertex/edge add and delete on overlapping ids, graph create/delete, one-element bulk streams, traversals, lookups, label and graph listings, schema upload/read, job submit/poll/view/list) against one real GripServer, interleaved by the seeded scheduler at every yield point incl. inside the simulated disk; half of the workers run the race-detector build. Judged: no process death, race reports in repository code (deduplicated by the pair of racing functions), final state explained by some order of the acknowledged edits consistent with each client's order (exact bounded search), every read value was written by some client. non-trivial = at least 2 clients and 2 edits; distinct = distinct (sessions, decision-sequence hash)",
 		Assumptions: []string{"the final-state oracle is deliberately weaker than linearizability: the property constrains the final state and per-client order only", "edge ids keep their endpoints and label (the recorded edge re-add finding is excluded), label listings are not compared", "simkv Update transactions are serialisable and top-level writes atomic, as the real engines'"}}
 }
+
+func init() {
+	props["C11"] = &propCfg{Level: "exploration", QuickRuns: 3000, QuickS: 60, ThoroughRuns: 300000, ThoroughS: 1500, CrashIsViolation: true,
+		Rule: "one case = a small or medium graph (result sizes around the 4 serializer workers, their 10-slot queues and the 40-slot merge buffer, scaled) and a sequence of 2..7 job operations: submit a deterministic traversal of any result type (vertices, edges, counts, selections, renders, paths, aggregations) and poll on the simulated clock until COMPLETE, view, resume a job with the rest of a split program, search with unrelated and with extending queries, list, delete, restart the job storage over the same directory; serializer workers optionally slowed by seeded sleeps; all under a seeded schedule. non-trivial = at least 2 operations; distinct = distinct (graph, operations, configuration)",
+		Assumptions: []string{"job files are real files in a scratch directory (no storage seam in jobstorage); process death between file operations is not injected in this version, un-fsynced data loss is not modelled", "programs with limit/skip/range/distinct(field) are not used for jobs (which rows they keep is unspecified)", "the direct traversal through the same server is the reference for stored and resumed rows"}}
+}
